@@ -250,6 +250,10 @@ def stickyVerdict (prev : String) (fresh : Bool) (prevFirst target nowFirst : St
      else if nowFirst == target || nowFirst == prevFirst then "ok" else "bad:moved-elsewhere")
   else (if nowFirst == prevFirst then "ok" else "bad:route-changed")
 
+/-- what a connection must find when it finally consumes a batch whose caller gave up while it was queued:
+    exactly the caller's commands — a command is never modified or recycled before it is completely written -/
+def consumeSpec : String := "intact"
+
 /-- verdict on one observed run -/
 def judge (k : Nat) (cmds : List TCmd) (results : List String) (calls : List TCall) (evs : List TEv) : String :=
   if !positional cmds.length results evs then "bad:positional"
